@@ -96,17 +96,17 @@ class Node(object):
 
     # ---------------------------------------------------------------- helpers
     def _registry(self):
-        """name -> table as the library registers them (falls back to the tables this node created)."""
-        reg = getattr(self.core, "PRIVATE_TABLES", None)
-        if isinstance(reg, dict):
-            return dict(reg)
-        return dict(self.tables)
+        """name -> table for every table this node knows about.  The node created every private
+        table itself, so it does not depend on how the library registers them: tables whose handle
+        the 'caller' dropped are followed through a weak reference."""
+        reg = dict(self.tables)
+        for name, ref in getattr(self, "dropped", {}).items():
+            t = ref()
+            if t is not None and name not in reg:
+                reg[name] = t
+        return reg
 
     def table(self, name):
-        if name == "public":
-            return self.tables["public"]
-        if name in self.tables:
-            return self.tables[name]
         t = self._registry().get(name)
         if t is None:
             raise LookupError("no table " + name)
@@ -524,14 +524,20 @@ _ABSENT = object()
 
 
 def _kind(attr):
+    """D: a pending delayed-load placeholder; P: another property; V: a plain value; -: absent.
+    Recognised by shape, not by name: the closure-based property of core.delayed_load, or any
+    data descriptor defined by the library itself (a tree may implement the placeholder as a class)."""
     if attr is _ABSENT:
         return "-"
     if isinstance(attr, property):
-        fget = attr.fget
-        qn = getattr(fget, "__qualname__", "")
-        if qn.startswith("delayed_load."):
+        qn = getattr(attr.fget, "__qualname__", "")
+        if "delayed" in qn.lower():
             return "D"
         return "P"
+    cls = type(attr)
+    if (getattr(cls, "__module__", "") or "").startswith("periodictable") and hasattr(cls, "__get__") \
+            and hasattr(cls, "__set__"):
+        return "D"
     return "V"
 
 
